@@ -17,6 +17,8 @@ var generators = map[string]func(*Gen){
 	"C05": genC05,
 	"C06": genC06,
 	"C08": genC08,
+	"C09": genC09,
+	"C10": genC10,
 	"C11": genC11,
 	"C12": genC12,
 	"C13": genC13,
